@@ -1773,6 +1773,12 @@ def gen_flow(rng, module: str) -> Optional[dict]:
                 continue
             if r0["reject"] or not r0["types"] or not r0["types"][0] or "t" not in r0["types"][0]:
                 continue
+            try:  # the two representatives of the node (defaults omitted / explicit) must agree on the type
+                r1 = oracle_run(op0, c0, True)
+            except Exception:  # noqa: BLE001
+                continue
+            if r1["reject"] or r1["types"] != r0["types"]:
+                continue
             vars_ += c0["vars"]
             calls.append({k: v for k, v in c0.items() if k != "vars"})
             calls[0]["family"] = "flow"
